@@ -66,19 +66,27 @@ def r_transformable(rule, types=("Interval", "Grad"), root=None):
             rule.bad(key + "|rowexpr", "Transformable for %s: row expression not understood (%s)" % (ty, e), A.where(fn, cl))
         # the map result must be bound to the array that is divided
         outn = None
+        comp = {}  # text that denotes component k of the mapped array
         for s in lets:
             if any(n is mp[0] for n in A.walk(s.get("init") or {})):
                 outn = A.binding_name(s["pat"])
+                p = s["pat"]["pat"] if s["pat"].get("k") == "PType" else s["pat"]
+                if outn:
+                    comp = {k: "%s[%d]" % (outn, k) for k in range(4)}
+                elif p.get("k") == "PSlice" and len(p.get("elems", [])) == 4:
+                    # `let [tx, ty, tz, tw] = [0, 1, 2, 3].map(..)` names the four components
+                    comp = {k: A.binding_name(e_) for k, e_ in enumerate(p["elems"])}
+                    outn = "[%s]" % ",".join(str(comp[k]) for k in range(4))
         tl = A.strip(A.stmt_expr(fn["body"]["stmts"][-1]) or {})
-        good = tl.get("k") == "Tuple" and len(tl["elems"]) == 3
+        good = tl.get("k") == "Tuple" and len(tl["elems"]) == 3 and len(comp) == 4
         if good:
             for k, el in enumerate(tl["elems"]):
                 el = A.strip(el)
                 if not (
                     el.get("k") == "Binary"
                     and el["op"] == "/"
-                    and A.ftxt(A.strip(el["left"])) == "%s[%d]" % (outn, k)
-                    and A.ftxt(A.strip(el["right"])) == "%s[3]" % outn
+                    and str(A.ftxt(A.strip(el["left"]))) == comp[k]
+                    and str(A.ftxt(A.strip(el["right"]))) == comp[3]
                 ):
                     good = False
                     rule.bad(key + "|div%d" % k, "Transformable for %s: component %d is `%s`; every component must be `%s[%d] / %s[3]` (the homogeneous divide, on the full %s value)" % (ty, k, A.unparse(el), outn, k, outn, ty), A.where(fn, el))
